@@ -30,6 +30,7 @@ package main
 //         the specification's Holds.
 
 import (
+	"os/exec"
 	"bufio"
 	"bytes"
 	"encoding/json"
@@ -1530,6 +1531,11 @@ func fltRecord(args []string) error {
 	}
 	rng := newRand(606)
 	projections := 0
+	binaryEvents := 0
+	filterBin := ""
+	if len(args) > 2 {
+		filterBin = args[2]
+	}
 	for t := 0; t < n; t++ {
 		res, evres, ok := fltRecResult(rng)
 		if !ok {
@@ -1586,7 +1592,65 @@ func fltRecord(args []string) error {
 			ev.Kept = append(ev.Kept, p+1) // ids are 1-based; -1 (foreign measurement) becomes 0
 		}
 		ew.emit(&ev)
+		// the same expression through the benchfilter BINARY: the result is written to its
+		// stdin (all configuration as file configuration), its output read back
+		fileable := true // can the configuration be carried by a file? (keys without blank or colon)
+		for k := range evres.Cfg {
+			if strings.ContainsAny(k, " :") {
+				fileable = false
+			}
+		}
+		if filterBin != "" && fileable && !strings.Contains(q, "WITH PROJECTION") && t%2 == 1 {
+			r2 := res.Clone()
+			for i := range r2.Config {
+				r2.Config[i].File = true
+			}
+			var in bytes.Buffer
+			if err := benchfmt.NewWriter(&in).Write(r2); err != nil {
+				return err
+			}
+			cmd := exec.Command(filterBin, "--", q) // "--": a query may start with "-"
+			cmd.Stdin = &in
+			var stderr bytes.Buffer
+			cmd.Stderr = &stderr
+			outb, err := cmd.Output()
+			av := fltEvent{Ev: "apply", T: t, Q: q, Expr: model, Res: evres, Bits: []bool{}, Kept: []int{}}
+			if err != nil {
+				av.Err = "benchfilter: " + err.Error() + " " + stderr.String()
+			} else {
+				rd := benchfmt.NewReader(bytes.NewReader(outb), "out")
+				nres := 0
+				for rd.Scan() {
+					pr, ok := rd.Result().(*benchfmt.Result)
+					if !ok {
+						av.Err = fmt.Sprintf("benchfilter output has a non-result record: %v", rd.Result())
+						continue
+					}
+					nres++
+					if string(pr.Name) != string(res.Name) {
+						av.Err = "benchfilter changed the name"
+					}
+					for _, v := range pr.Values {
+						x := v.Value
+						if v.OrigUnit != "" {
+							x = v.OrigValue
+						}
+						id := int(x-0.5) + 1
+						if float64(id-1)+0.5 != x || id < 1 || id > len(res.Values) {
+							id = 0
+						}
+						av.Kept = append(av.Kept, id)
+					}
+				}
+				av.Ok = nres > 0
+				if nres > 1 {
+					av.Err = "benchfilter wrote several results for one"
+				}
+			}
+			ew.emit(&av)
+			binaryEvents++
+		}
 	}
-	fmt.Printf("FILTERSEM-RECORD events=%d projections=%d\n", n, projections)
+	fmt.Printf("FILTERSEM-RECORD events=%d projections=%d binary=%d\n", n, projections, binaryEvents)
 	return ew.close()
 }
